@@ -339,3 +339,64 @@ func c14Strip(c map[string]interface{}) interface{} {
 	}
 	return map[string]interface{}{"outs": outs}
 }
+
+// c14.defaultctl: a location without a control of its own lives on SystemParameters.DefaultControl (what a System
+// installs as DefaultLocControl and what /api/sys/loccontrol edits IN PLACE). The JavaScript timeout in force is the one
+// configured at the time the script runs, also for a location that was used before the limit was changed.
+// case: {"first_ns": .., "then_ns": .., "code": "...", "wait_ms": ..}; own process (global settings).
+func init() {
+	register("c14.defaultctl", func(c map[string]interface{}) interface{} {
+		saveOn, saveDef, saveCtl := core.SystemParameters.JavascriptTimeouts, core.SystemParameters.DefaultJavascriptTimeout, core.SystemParameters.DefaultControl
+		defer func() {
+			core.SystemParameters.JavascriptTimeouts, core.SystemParameters.DefaultJavascriptTimeout, core.SystemParameters.DefaultControl = saveOn, saveDef, saveCtl
+		}()
+		first, _ := c14Dur(c["first_ns"])
+		then, _ := c14Dur(c["then_ns"])
+		code, _ := c["code"].(string)
+		waitMs, _ := c["wait_ms"].(float64)
+		ctl := core.DefaultControl()
+		ctl.Verbosity = core.NOTHING
+		ctl.JavascriptTimeout = core.Duration(first)
+		core.SystemParameters.JavascriptTimeouts = true
+		core.SystemParameters.DefaultControl = ctl
+		ctx := newCtx()
+		loc, err := core.NewLocation(ctx, "c14dc", nil, nil)
+		if err != nil {
+			return map[string]interface{}{"err": "setup: " + err.Error()}
+		}
+		out := map[string]interface{}{}
+		// first use: the location consults its control (and adopts the default one)
+		bs := core.Bindings{}
+		if _, err := loc.RunJavascript(ctx, "1+1", nil, &bs, nil); err != nil {
+			out["first_err"] = err.Error()
+		}
+		if _, err := loc.AddFact(ctx, "f1", core.Map{"a": 1.0}); err != nil {
+			out["first_err"] = err.Error()
+		}
+		// the limit is (re)configured in place
+		ctl.JavascriptTimeout = core.Duration(then)
+		done := make(chan map[string]interface{}, 1)
+		start := time.Now()
+		go func() {
+			bs := core.Bindings{}
+			x, err := loc.RunJavascript(newCtx(), code, nil, &bs, nil)
+			r := map[string]interface{}{"elapsed_ms": float64(time.Since(start)) / float64(time.Millisecond)}
+			if err != nil {
+				r["class"], r["msg"], r["errkind"] = "error", err.Error(), c14ErrKind(err.Error(), err)
+			} else {
+				r["class"], r["value"] = "value", c14Jsonable(x)
+			}
+			done <- r
+		}()
+		select {
+		case r := <-done:
+			for k, v := range r {
+				out[k] = v
+			}
+		case <-time.After(time.Duration(waitMs) * time.Millisecond):
+			out["class"] = "running"
+			out["elapsed_ms"] = waitMs
+		}
+		return out
+	})
+}
